@@ -115,6 +115,8 @@ def parseOp (ws : List String) (steps : String) (oracle : Bool) : Option Op :=
   -- objects whose whole value is a lock (`Gc<RefLock<_>>` with 3 slots, `Gc<Lock<_>>` with one slot,
   -- `Gc<OnceLock<_>>` with one slot, allocated empty): for the model, objects are slot lists.
   | ["alloc", "refnode", a, b, c] => (parseSlots [a, b, c]).map (.alloc true)
+  -- an object holding its 3 slots behind a `dyn_collect!` trait object: an ordinary node
+  | ["alloc", "dynnode", a, b, c] => (parseSlots [a, b, c]).map (.alloc true)
   | ["alloc", "lockcell", a] => (parseSlots [a]).map (.alloc true)
   | ["alloc", "oncecell"] => some (.alloc true [none])
   -- the allocation made by the closure of `Gc<OnceLock<_>>::get_or_init` (between its barrier and
